@@ -396,37 +396,48 @@ func c19AuthorIP(c *Ctx) {
 		r.Fail("C19/AUTHOR-IP", "session lookup by id", p.Pos(fn.Pos()), "lookup not found")
 		return
 	}
-	// the ok edge
-	var okBlock *ssa.BasicBlock
+	// Guided search: follow, from the lookup, only the branches consistent with "the session
+	// exists" (ok == true), remember whether the path went through the edge on which the IPs are
+	// equal and the edge on which the zones are equal, and see whether a reply that carries a
+	// session can be reached without both. The shape of the conditions (if / switch, negated or
+	// not, && / ||) does not matter.
+	var okVal ssa.Value
 	for _, rr := range *lk.Referrers() {
 		if ex, ok := rr.(*ssa.Extract); ok && ex.Index == 1 {
-			for _, u := range *ex.Referrers() {
-				if iff, ok := u.(*ssa.If); ok {
-					okBlock = iff.Block().Succs[0]
-				}
-			}
+			okVal = ex
 		}
 	}
-	ipEq := findCall(fn, func(c *ssa.Call) bool {
-		return core.CalleeObjName(c) == "net.IP.Equal" && strings.Contains(condString(c.Call.Args[0], 0), "ServerConn.ip") && strings.Contains(condString(c.Call.Args[1], 0), "author")
-	})
-	var zoneIf *ssa.If
+	isIPEq := func(v ssa.Value) bool {
+		ci, ok := v.(*ssa.Call)
+		return ok && core.CalleeObjName(ci) == "net.IP.Equal" && strings.Contains(condString(ci.Call.Args[0], 0)+condString(ci.Call.Args[1], 0), "author")
+	}
+	isZoneCmp := func(v ssa.Value) (bool, bool) { // recognised, equalOnTrue
+		bo, ok := v.(*ssa.BinOp)
+		if !ok || bo.Op != token.EQL && bo.Op != token.NEQ {
+			return false, false
+		}
+		if strings.Contains(condString(bo.X, 0), "ServerConn.zone") && strings.Contains(condString(bo.Y, 0), "ServerConn.zone") {
+			return true, bo.Op == token.EQL
+		}
+		return false, false
+	}
+	ipEq := findCall(fn, func(c *ssa.Call) bool { return isIPEq(c) })
+	hasZone := false
 	for _, b := range fn.Blocks {
-		if len(b.Instrs) == 0 {
-			continue
-		}
 		if iff, ok := b.Instrs[len(b.Instrs)-1].(*ssa.If); ok {
-			if bo, ok := iff.Cond.(*ssa.BinOp); ok && bo.Op == token.NEQ && strings.Contains(condString(bo.X, 0), "ServerConn.zone") && strings.Contains(condString(bo.Y, 0), "ServerConn.zone") {
-				zoneIf = iff
+			c0 := iff.Cond
+			if u, ok := c0.(*ssa.UnOp); ok && u.Op == token.NOT {
+				c0 = u.X
+			}
+			if rec, _ := isZoneCmp(c0); rec {
+				hasZone = true
 			}
 		}
 	}
-	if okBlock == nil || ipEq == nil || zoneIf == nil {
+	if okVal == nil || ipEq == nil || !hasZone {
 		r.Fail("C19/AUTHOR-IP", "creator IP / zone comparison", p.Pos(lk.Pos()), "the comparison of the requesting connection's IP and zone with the session creator's is gone")
 		return
 	}
-	ipIf, ipTrue := boolEdges(ipEq)
-	// the reply that carries the found session: a Send whose struct has field ss stored from the lookup value
 	isGrant := func(in ssa.Instruction) bool {
 		s, ok := in.(*ssa.Send)
 		if !ok || chanRole(s.Chan) != "reply" {
@@ -441,21 +452,80 @@ func c19AuthorIP(c *Ctx) {
 			return false
 		}
 		for _, rr := range *al.Referrers() {
-			if fa, ok := rr.(*ssa.FieldAddr); ok && core.FieldOfAddr(fa) != nil && core.FieldOfAddr(fa).Name() == "ss" {
+			if fa, ok := rr.(*ssa.FieldAddr); ok && core.FieldOfAddr(fa) != nil && core.NamedOfShort(core.Deref(core.FieldOfAddr(fa).Type())) == "ServerSession" {
 				return true
 			}
 		}
 		return false
 	}
-	leak := pathFromBlockAvoidingE(okBlock, isGrant, func(a, b *ssa.BasicBlock) bool {
-		if ipIf != nil && a == ipIf.Block() {
-			return b != ipIf.Block().Succs[ipTrue] // only the Equal==true edge continues
+	type st struct {
+		b        *ssa.BasicBlock
+		ip, zone bool
+	}
+	seenSt := map[st]bool{}
+	leak := false
+	var dfs func(b *ssa.BasicBlock, from int, ip, zone bool)
+	dfs = func(b *ssa.BasicBlock, from int, ip, zone bool) {
+		if leak {
+			return
 		}
-		if a == zoneIf.Block() {
-			return b != zoneIf.Block().Succs[1] // only zone equal continues
+		if from == 0 {
+			k := st{b, ip, zone}
+			if seenSt[k] {
+				return
+			}
+			seenSt[k] = true
 		}
-		return false
-	}, map[*ssa.BasicBlock]bool{ipIf.Block(): true, zoneIf.Block(): true})
+		for i := from; i < len(b.Instrs); i++ {
+			in := b.Instrs[i]
+			if isGrant(in) {
+				if !(ip && zone) {
+					leak = true
+				}
+				return
+			}
+			if _, isSel := in.(*ssa.Select); isSel {
+				return // next iteration of the server loop
+			}
+		}
+		iff, ok := b.Instrs[len(b.Instrs)-1].(*ssa.If)
+		if !ok {
+			for _, sc := range b.Succs {
+				dfs(sc, 0, ip, zone)
+			}
+			return
+		}
+		cond, neg := iff.Cond, false
+		if u, ok := cond.(*ssa.UnOp); ok && u.Op == token.NOT {
+			cond, neg = u.X, true
+		}
+		for i, sc := range b.Succs {
+			val := (i == 0) != neg // value of cond on this edge
+			if cond == okVal {
+				if !val {
+					continue // the session exists on the paths we follow
+				}
+				dfs(sc, 0, ip, zone)
+				continue
+			}
+			if isIPEq(cond) {
+				dfs(sc, 0, ip || val, zone)
+				continue
+			}
+			if rec, eqOnTrue := isZoneCmp(cond); rec {
+				dfs(sc, 0, ip, zone || (val == eqOnTrue))
+				continue
+			}
+			dfs(sc, 0, ip, zone)
+		}
+	}
+	idx := 0
+	for i, in := range lk.Block().Instrs {
+		if in == ssa.Instruction(lk) {
+			idx = i + 1
+		}
+	}
+	dfs(lk.Block(), idx, false, false)
 	r.Check(!leak, "C19/AUTHOR-IP", "existing session granted only to the creator's IP and zone", p.Pos(ipEq.Pos()), "the grant is reachable from the lookup's ok edge only through ip.Equal == true and equal zones", "an existing session can be handed to a connection from another address")
 }
 
